@@ -248,7 +248,7 @@ class CallCtx(object):
                       ret, z3.BoolVal(False), exc, lambda n: bound[n], st)
         for label, fn_req in con.requires:
             goal = fn_req(pre_ctx)
-            st.obligations.append(Obligation("%s/pre-of[%s:%s]" % (ex.env.fn.key, con.key, label), st.pc, goal, st.sig,
+            st.obligations.append(Obligation("%s/pre-of[%s:%s]" % (ex.env.fn.key, con.key, label), st.hyps(), goal, st.sig,
                                              "pre-of", label, con.props))
             st.assume(goal)
         # snapshot old heap arrays lazily: old(field) is whatever the array was before havoc
